@@ -273,6 +273,7 @@ func resolveComputedFields(env *Environment, errorSink *validation.ErrorSink) *E
 			case *Vector:
 				if len(t.Arguments) != 1 {
 					errorSink.Add(validationError(t, "vector index must have exactly one argument"))
+					return t
 				}
 				if d.Length != nil {
 					switch arg := t.Arguments[0].Value.(type) {
@@ -285,6 +286,7 @@ func resolveComputedFields(env *Environment, errorSink *validation.ErrorSink) *E
 			case *Map:
 				if len(t.Arguments) != 1 {
 					errorSink.Add(validationError(t, "map lookup must have exactly one argument"))
+					return t
 				}
 
 				argType := t.Arguments[0].Value.GetResolvedType()
@@ -298,6 +300,11 @@ func resolveComputedFields(env *Environment, errorSink *validation.ErrorSink) *E
 				}
 				argumentsValidated = true
 			case *Array:
+				if len(t.Arguments) == 0 {
+					errorSink.Add(validationError(t, "array index must have at least one argument"))
+					return t
+				}
+
 				labeledCount := 0
 				unlabeledCount := 0
 				for _, a := range t.Arguments {
